@@ -175,6 +175,9 @@ func (r Rng) randomWindow(hDepth, vDepth int64, sameZoom bool) Win {
 	n := int64(1) << uint(w.H0)
 	w.X0 = r.edgeIn(0, n-1)
 	w.Y0 = r.edgeIn(0, n-1)
+	if r.Chance(0.1) {
+		w.Y0 = w.X0
+	}
 	if sameZoom {
 		w.V0 = w.H0
 	} else {
@@ -232,6 +235,39 @@ func (r Rng) randomIDAt(w Win, h, v int64) ID {
 		}
 	} else {
 		id.F = r.edgeIn(0, nv-1)
+	}
+	if r.Chance(0.06) {
+		// numeric coincidences between the fields of one ID (real values in absolute mode and in
+		// windows with X0 = Y0): x = y, f = x, an index equal to a zoom, round decimal numbers
+		in := func(a, n int64) bool { return a >= 0 && a < n }
+		switch r.Intn(6) {
+		case 0:
+			id.Y = id.X
+		case 1:
+			if in(id.X, nv) {
+				id.F = id.X
+			}
+		case 2:
+			if in(h, nh) {
+				id.X = h
+			}
+		case 3:
+			if in(v, nh) {
+				id.Y = v
+			}
+		case 4:
+			if in(v, nv) {
+				id.F = v
+			}
+		default:
+			p := r.Pick(10, 100, 1000, 10000, 100000)
+			if in(p, nh) {
+				id.X = p
+			}
+			if in(p, nv) && r.Chance(0.5) {
+				id.F = p
+			}
+		}
 	}
 	return id
 }
